@@ -123,6 +123,26 @@ def step_checks(agg, obj, depth, out):
                         r = attempt(f"vector.{opn}", case, (lambda: op(x, w)) if order == "xw" else (lambda: op(w, x)))
                         if r is not None and hasattr(r, "_name"):
                             ok(f"vector.binary.{opn}" + ("" if wk == "same" else f".{wk}"), dict(case, op=opn, right_name=other, right_kind=wk, order=order), None, r._name)
+        # ... and for the element kinds that have arithmetic of their own (dates with day counts and timedeltas, text, complex): the
+        # left operand carries this seed's name, the result is unnamed whatever path computes it
+        from datetime import date as _d, datetime as _dt, timedelta as _td
+        n_ = len(vals)
+        pairs = [("date+int-days", [_d(2020, 1, 1 + i) for i in range(n_)], [i + 1 for i in range(n_)], operator.add),
+                 ("date+timedelta", [_d(2020, 1, 1 + i) for i in range(n_)], [_td(days=i) for i in range(n_)], operator.add),
+                 ("date-timedelta", [_d(2020, 1, 9 + i) for i in range(n_)], [_td(days=i) for i in range(n_)], operator.sub),
+                 ("date-date", [_d(2020, 1, 9 + i) for i in range(n_)], [_d(2020, 1, 1 + i) for i in range(n_)], operator.sub),
+                 ("datetime+timedelta", [_dt(2020, 1, 1 + i, 5) for i in range(n_)], [_td(hours=i) for i in range(n_)], operator.add),
+                 ("date?+int-days", [None] + [_d(2020, 1, 1 + i) for i in range(1, n_)], [i + 1 for i in range(n_)], operator.add),
+                 ("str+str", ["a"] * n_, ["b"] * n_, operator.add), ("str*int", ["a"] * n_, [2] * n_, operator.mul), ("str%str", ["<%s>"] * n_, ["b"] * n_, operator.mod),
+                 ("complex+int", [1j] * n_, [2] * n_, operator.add), ("bytes+bytes", [b"a"] * n_, [b"b"] * n_, operator.add)]
+        for plab, lv, rv, op in pairs:
+            for other in (None, "x", nm):
+                for rform in ("vector", "list"):
+                    left = Vector(list(lv), name=nm)
+                    right = Vector(list(rv), name=fresh(other)) if rform == "vector" else list(rv)
+                    r = attempt(f"vector.{plab}", case, lambda: op(left, right))
+                    if r is not None and hasattr(r, "_name"):
+                        ok(f"vector.binary.{plab}", dict(case, op=plab, right_name=other, right=rform), None, r._name)
         # structure from vectors
         for other in NAMES:
             w = Vector(list(vals), name=other)
